@@ -177,3 +177,17 @@ func (p Program) InitCode() []byte {
 	code = append(code, 0xf3)
 	return append(code, rt...)
 }
+
+// WrapRuntime wraps hand-written runtime bytecode in a constructor that returns it.
+func WrapRuntime(rt []byte) []byte {
+	hdr := 3 + 3 + 2 + 1 + 3 + 2 + 1
+	var code []byte
+	code = append(code, push2(uint16(len(rt)))...)
+	code = append(code, push2(uint16(hdr))...)
+	code = append(code, push1(0)...)
+	code = append(code, 0x39)
+	code = append(code, push2(uint16(len(rt)))...)
+	code = append(code, push1(0)...)
+	code = append(code, 0xf3)
+	return append(code, rt...)
+}
